@@ -283,10 +283,22 @@ bool exec_ss(Ctx &c, const Op &op) {
         as_const(o);
         bool ok = true; std::string got;
         bool defaults = (op.c % 3 == 0) && (op.b & 4);
+        // "returns those bytes as a validated UTF-8 string": what validation accepts is another property's business, so the reference is the
+        // library's own validating entry point on the same bytes with the same mode - to_string() must behave exactly like it
+        bool ref_used = false, ref_throws = false; std::string ref;
+        if (utf8 && !wf && !has_c03_hazard(o->model.data(), o->model.size())) {
+            ref_used = true;
+            run_quiet([&] { simrt::SutScope sc; try { ST::string r = ST::string::from_utf8(o->model.data(), o->model.size(), val); ref.assign(r.c_str(), r.size()); } catch (const ST::unicode_error &) { ref_throws = true; } });
+        }
         ExcKind ex = run_sut(c, op, [&] {
             ST::string r = defaults ? (utf8 ? o->p()->to_string() : o->p()->to_string(false)) : o->p()->to_string(utf8, val);
             got.assign(r.c_str(), r.size());
         });
+        if (ref_used && !c.fired && ex != EX_BAD_ALLOC) {
+            if (ref_throws && ex == EX_NONE) set_viol(c, "value_mismatch", "to_string() returned a string although ST::string::from_utf8 rejects the same bytes under the same validation mode (not validated)");
+            else if (!ref_throws && ex == EX_NONE && got != ref) set_viol(c, "value_mismatch", "to_string() returned other bytes than ST::string::from_utf8 yields for the stream content under the same validation mode");
+            else if (!ref_throws && ex == EX_UNICODE) set_viol(c, "value_mismatch", "to_string() threw unicode_error although ST::string::from_utf8 accepts the same bytes under the same validation mode");
+        }
         if (settle(c, op, ex, (!wf && utf8) ? bit(EX_UNICODE) : 0)) {
             if (utf8) { if (wf || val != ST::substitute_invalid) ok = (got == o->model); }
             else ok = (got == latin1_ref(o->model));
